@@ -2,9 +2,9 @@
    [cl_sem] is Clafer's group / cardinality semantics on the exported hierarchy (children of a clafer
    with a group cardinality other than the default 0..* default to 0..1 and are counted by the group;
    otherwise 1..1 unless marked ? — the writer marks the members of a [0..*] group); identifiers are the safe-named feature names, [lift σ] reads a selection through them. *)
-From Coq Require Import List Bool String ZArith.
+From Coq Require Import List Bool Ascii String ZArith.
 From FM Require Import Base.Result Base.AstOp Model.Ast Model.FM Model.Queries Model.Sem Format.Export
-     Base.Str Proofs.PositionalFacts Proofs.C18Facts Proofs.C11Facts.
+     Base.Str Model.PyRt Model.Loc Gen.Src_clafer Proofs.PositionalFacts Proofs.C18Facts Proofs.C11Facts Proofs.SrcClaferFacts.
 Import ListNotations.
 Local Open Scope list_scope.
 
@@ -49,6 +49,31 @@ Definition ex11 : fm :=
        [ Relation 1 1 [Feature (mk_info "A") [Relation 1 1 [leaf "A1"; leaf "A2"]]];
          Relation 0 1 [Feature (mk_info "two words") [Relation 2 3 [leaf "C"; leaf "D"; leaf "E"]]] ];
      ctcs := [ {| c_name := "c1"; c_ast := bin XOR (term "A1") (un NOT (bin EQUIVALENCE (term "C") (term "two words"))) |} ] |}.
+(* ---- the export about the TRANSLATED SOURCE of clafer_writer.py (Gen/Src_clafer.v, regenerated on every run;
+   DESIGN §10): the translated fm_to_clafer produces exactly the rendering of the document the theorems above are about,
+   errors included.  The hypothesis says that the positional spelling of every real attribute value has a decimal point,
+   which holds for every genuine repr of a Python float (sc_repr_pointed); without it the hand model and the code differ
+   (the code appends ".0": sc_unpointed_float_differs). ---- *)
+Theorem C11_source_text : forall m fuel, (fuel_model m <= fuel)%nat ->
+  (forall g, In g (subfeatures (root m)) -> sc_attrs_pointed g = true) ->
+  py_fm_to_clafer fuel m = clafer_text m.
+Proof. exact src_fm_to_clafer. Qed.
+Print Assumptions C11_source_text.
+
+Theorem C11_source_identifiers : forall s, py_safename s = cl_safename s.
+Proof. exact src_clafer_safename. Qed.
+Print Assumptions C11_source_identifiers.
+
+Theorem C11_source_constraint_text : forall n fuel, (fuel_node n <= fuel)%nat ->
+  py__serialize_node fuel n = rmap render_cexpr (clafer_node n).
+Proof. exact src_clafer_node. Qed.
+Print Assumptions C11_source_constraint_text.
+
+Theorem C11_source_real_repr_pointed : forall r,
+  str_contains_char "."%char r || str_contains_char "e"%char r = true -> sc_float_pointed (VFloat r) = true.
+Proof. exact sc_repr_pointed. Qed.
+Print Assumptions C11_source_real_repr_pointed.
+
 Example C11_nonvacuous :
   clafer_feature_ok (root ex11) = true /\ NoDup (names (root ex11))
   /\ Forall (fun c => node_wf (c_ast c) = true) (ctcs ex11) /\ (exists d, clafer_write ex11 = Ok d).
